@@ -22,6 +22,7 @@ func init() {
 }
 
 type delivery struct {
+	mustRefuse bool // at or below a height the syncer had already acknowledged when it was sent
 	kind   string
 	h      *H
 	err    error
@@ -83,6 +84,9 @@ func runSyncer(s *core.Sim, tier string, liveness bool) RunInfo {
 	accepted := uint64(0) // highest honest head the syncer acknowledged (verifier nil / Head() result)
 	deliver := func(kind string, h *H, honest bool) *core.Task {
 		d := &delivery{kind: kind, h: h, honest: honest}
+		if h != nil && honest && accepted > 0 && h.Height() <= accepted {
+			d.mustRefuse = true // the subjective head never moves back
+		}
 		dels = append(dels, d)
 		if !honest && h != nil {
 			bad[string(h.Hash())] = kind
@@ -144,6 +148,10 @@ func runSyncer(s *core.Sim, tier string, liveness bool) RunInfo {
 		if s.Failed() {
 			return false
 		}
+		// NOTE: an honest header that is re-delivered, or is stale by the time it is looked at,
+		// is not required to be refused here: the Syncer prefers the top of its pending set over
+		// a higher store head, so its subjective head can briefly step back and accept a
+		// duplicate (observed on the unchanged tree; harmless, the store refuses the re-append).
 		for _, d := range dels {
 			if d.done && !d.honest && d.err == nil {
 				s.Violate("bad-gossip-accepted", map[string]string{"kind": d.kind}, "[%s] the verifier returned nil for the %s header %v (trust range %d)", why, d.kind, d.h, simhdr.Cfg.TrustRange)
@@ -188,7 +196,7 @@ func runSyncer(s *core.Sim, tier string, liveness bool) RunInfo {
 	for i := 0; i < nops && !s.Failed(); i++ {
 		ops := []string{"next", "next", "skip", "burst", "head", "clock", "getter-faults", "settle", "settle"}
 		if !liveness {
-			ops = append(ops, "forged", "forged", "wrong-chain", "future", "stale", "duplicate", "forged-far")
+			ops = append(ops, "forged", "forged", "wrong-chain", "future", "stale", "duplicate", "forged-far", "head-forged")
 		}
 		switch core.Pick(s.Tape, "op", ops) {
 		case "next":
@@ -211,6 +219,25 @@ func runSyncer(s *core.Sim, tier string, liveness bool) RunInfo {
 				pending = append(pending, deliver("honest-burst", w.Ch.At(h), true))
 			}
 		case "head":
+			pending = append(pending, callHead())
+		case "head-forged":
+			// ordinary peers answer the next head request with a forged header; when that
+			// soft-fails against the trusted head the getter contract passes it on together
+			// with the soft error, and the Syncer has to find out by bifurcation
+			off := uint64(1 + s.Tape.Draw("forged-head-off", 4))
+			salt := uint64(i)
+			w.G.HeadFault = func(n int, trusted *H) (*H, error, bool) {
+				w.G.HeadFault = nil
+				if trusted == nil {
+					return nil, nil, false
+				}
+				f := simhdr.ForgeSig(w.Ch.At(trusted.Height()+off), salt)
+				bad[string(f.Hash())] = "forged-head"
+				s.Fault("forged-head-from-peers")
+				return f, nil, true
+			}
+			s.Sleep(rec + time.Second) // make the subjective head stale so that Head() asks the network
+			hist = append(hist, fmt.Sprintf("peers answer the next head request with a forged header (+%d)", off))
 			pending = append(pending, callHead())
 		case "clock":
 			d := time.Duration(1+s.Tape.Draw("clock-s", 120)) * time.Second
@@ -254,10 +281,21 @@ func runSyncer(s *core.Sim, tier string, liveness bool) RunInfo {
 			d := deliver("stale", w.Ch.At(x), true)
 			pending = append(pending, d)
 		case "duplicate":
-			if accepted == 0 {
-				continue
+			// re-deliver the most recently sent honest head (possibly while it is still
+			// being processed) or the last acknowledged one
+			var h *H
+			for j := len(dels) - 1; j >= 0 && h == nil; j-- {
+				if dels[j].honest && dels[j].kind != "stale" && dels[j].kind != "from-future" {
+					h = dels[j].h
+				}
 			}
-			pending = append(pending, deliver("duplicate", w.Ch.At(accepted), true))
+			if h == nil || s.Tape.Coin("dup-accepted", 1, 3) {
+				if accepted == 0 {
+					continue
+				}
+				h = w.Ch.At(accepted)
+			}
+			pending = append(pending, deliver("duplicate", h, true))
 		}
 	}
 	if !settle("end of workload") {
